@@ -38,21 +38,33 @@ def H(tier="quick", **kw):
 REG = {}
 
 REG["C05"] = dict(
-    cbmc_args=MEMCMP + FIELDS,
+    cbmc_args=MEMCMP,
     harnesses={
         "c05_step_append_1": H(module="wal", enc=["EmbeddedWal::append_entry", "write_record", "seek_and_write", "maybe_write_sentinel", "write_zero_header"],
                                sym="region size 1..2^26, region offset 0..8192, write head, pending bytes, sequence, checkpoint sequence, skip_sync, payload bytes",
                                bound="one append of a 1-byte payload from ANY state satisfying the log invariant (inductive step: stands for histories of any length)"),
         "c05_step_append_20": H(module="wal", enc=["EmbeddedWal::append_entry", "write_record", "maybe_write_sentinel", "write_zero_header"],
                                 sym="as c05_step_append_1", bound="one append of a 20-byte payload from any invariant state"),
-        "c05_step_append_300": H(module="wal", enc=["EmbeddedWal::append_entry", "write_record", "maybe_write_sentinel", "write_zero_header"],
+        "c05_step_append_300": H("thorough", module="wal", enc=["EmbeddedWal::append_entry", "write_record", "maybe_write_sentinel", "write_zero_header"],
                                  sym="as c05_step_append_1", bound="one append of a 300-byte payload from any invariant state"),
         "c05_step_checkpoint": H(module="wal", enc=["EmbeddedWal::record_checkpoint", "maybe_write_sentinel", "write_zero_header"],
                                  sym="as c05_step_append_1 plus the header", bound="one checkpoint from any invariant state"),
-        "c05_step_scan": H(module="wal", enc=["EmbeddedWal::pending_records", "records_after", "initialise_sentinel", "maybe_write_sentinel"],
-                           sym="as c05_step_append_1", bound="one pending_records() from any invariant state; scan_records itself replaced by a ghost returning the chain the invariant describes (<= 1 old + 1 pending aggregate record)"),
-        "c05_step_open": H(module="wal", enc=["EmbeddedWal::open", "open_internal", "initialise_sentinel"], replay="solver-only",
-                           sym="as c05_step_append_1 plus arbitrary header.wal_checkpoint_pos", bound="reopen-from-header on any invariant log; scan ghosted as in c05_step_scan"),
+        "c05_step_scan_empty": H("thorough", module="wal", enc=["EmbeddedWal::pending_records", "records_after", "initialise_sentinel", "maybe_write_sentinel"],
+                           sym="as c05_step_append_1", bound="one pending_records() from any invariant state with empty log; scan_records itself replaced by a ghost returning the chain the invariant describes (records aggregated)"),
+        "c05_step_open_empty": H("thorough", module="wal", enc=["EmbeddedWal::open", "open_internal", "initialise_sentinel"], replay="solver-only",
+                           sym="as c05_step_append_1 plus arbitrary header.wal_checkpoint_pos", bound="reopen-from-header on any invariant log with empty log; scan ghosted"),
+        "c05_step_scan_old_only": H(module="wal", enc=["EmbeddedWal::pending_records", "records_after", "initialise_sentinel", "maybe_write_sentinel"],
+                           sym="as c05_step_append_1", bound="one pending_records() from any invariant state with only checkpointed records; scan_records itself replaced by a ghost returning the chain the invariant describes (records aggregated)"),
+        "c05_step_open_old_only": H(module="wal", enc=["EmbeddedWal::open", "open_internal", "initialise_sentinel"], replay="solver-only",
+                           sym="as c05_step_append_1 plus arbitrary header.wal_checkpoint_pos", bound="reopen-from-header on any invariant log with only checkpointed records; scan ghosted"),
+        "c05_step_scan_pending_only": H(module="wal", enc=["EmbeddedWal::pending_records", "records_after", "initialise_sentinel", "maybe_write_sentinel"],
+                           sym="as c05_step_append_1", bound="one pending_records() from any invariant state with only pending records; scan_records itself replaced by a ghost returning the chain the invariant describes (records aggregated)"),
+        "c05_step_open_pending_only": H(module="wal", enc=["EmbeddedWal::open", "open_internal", "initialise_sentinel"], replay="solver-only",
+                           sym="as c05_step_append_1 plus arbitrary header.wal_checkpoint_pos", bound="reopen-from-header on any invariant log with only pending records; scan ghosted"),
+        "c05_step_scan_old_and_pending": H(module="wal", enc=["EmbeddedWal::pending_records", "records_after", "initialise_sentinel", "maybe_write_sentinel"],
+                           sym="as c05_step_append_1", bound="one pending_records() from any invariant state with checkpointed and pending records; scan_records itself replaced by a ghost returning the chain the invariant describes (records aggregated)"),
+        "c05_step_open_old_and_pending": H(module="wal", enc=["EmbeddedWal::open", "open_internal", "initialise_sentinel"], replay="solver-only",
+                           sym="as c05_step_append_1 plus arbitrary header.wal_checkpoint_pos", bound="reopen-from-header on any invariant log with checkpointed and pending records; scan ghosted"),
         "c05_record_layout": H(module="wal", enc=["EmbeddedWal::open", "append_entry", "write_record", "maybe_write_sentinel"],
                                sym="checkpoint sequence, 12 payload bytes", bound="200-byte zeroed region, one append of 12 bytes: every byte of the record image and of the sentinel checked"),
         "c05_scan_three_records": H(module="wal", enc=["EmbeddedWal::scan_records"],
@@ -74,7 +86,7 @@ REG["C05"] = dict(
 )
 
 REG["C30"] = dict(
-    cbmc_args=[],
+    cbmc_args=MEMCMP,
     harnesses={
         "c30_header_encode_decode": H(module="header", enc=["HeaderCodec::encode", "HeaderCodec::decode"], sym="all 8 header fields (magic, version, offsets, sizes, sequence, 32-byte checksum)",
                                       bound="every Header value; 4 KiB image"),
@@ -86,7 +98,7 @@ REG["C30"] = dict(
 )
 
 REG["C13"] = dict(
-    cbmc_args=[],
+    cbmc_args=MEMCMP,
     harnesses={
         "c13_topk_3docs": H(module="vec", enc=["VecIndex::search (Uncompressed)", "l2_distance"], sym="3 arbitrary non-NaN distances (incl. infinities, ties, signed zeros), k in 0..4",
                             bound="3 documents, k <= 4; distance function replaced by an arbitrary table (any distance function)"),
@@ -98,7 +110,7 @@ REG["C13"] = dict(
 )
 
 REG["C14"] = dict(
-    cbmc_args=[],
+    cbmc_args=MEMCMP,
     harnesses={
         "c14_remove_entries_embedding_for": H(module="vec", enc=["VecIndex::remove", "VecIndex::entries", "VecIndex::embedding_for"], sym="3 frame ids (duplicates allowed), 3 embedding values, the id to remove",
                                               bound="3 one-dimensional documents"),
@@ -108,12 +120,12 @@ REG["C14"] = dict(
 )
 
 REG["C38"] = dict(
-    cbmc_args=[],
+    cbmc_args=MEMCMP,
     harnesses={
         "c38_zero_on_equal_len4": H(module="simd", enc=["simd::l2_distance_squared_simd (scalar build)", "l2_distance_simd"], sym="4 finite f32 (bit-precise)", bound="length 4"),
         "c38_zero_on_equal_len9": H(module="simd", enc=["simd::l2_distance_squared_simd (scalar build)"], sym="9 finite f32", bound="length 9 (crosses the 8-lane boundary of the accelerated build)"),
         "c38_non_negative_len2": H(module="simd", enc=["simd::l2_distance_squared_simd"], sym="2x2 finite f32", bound="length 2"),
-        "c38_symmetric_len1": H(module="simd", enc=["simd::l2_distance_squared_simd"], sym="2 finite f32", bound="length 1"),
+        "c38_symmetric_len1": H("thorough", module="simd", enc=["simd::l2_distance_squared_simd"], sym="2 finite f32", bound="length 1"),
         "c38_symmetric_len2": H("thorough", module="simd", enc=["simd::l2_distance_squared_simd"], sym="2x2 finite f32", bound="length 2"),
         "c38_empty_vectors": H(module="simd", enc=["simd::l2_distance_simd", "l2_distance_squared_simd"], sym="-", bound="length 0"),
         "c38_exact_domain_len2": H("thorough", module="simd", enc=["simd::l2_distance_squared_simd"], sym="2x2 integers in [-1024, 1024]", bound="length 2 on the exactness domain (every intermediate exact in f32)"),
@@ -126,14 +138,16 @@ REG["C38"] = dict(
 NOT_APPLICABLE = {}
 
 REG["C37"] = dict(
-    cbmc_args=[],
+    cbmc_args=MEMCMP,
     harnesses={
         "c37_normalize_2_moderate": H("thorough", module="adaptive", enc=["normalize_scores"], sym="2 finite f32 with |x| <= 1e30 (bit-precise)", bound="2 scores, magnitude <= 1e30"),
         "c37_normalize_2_extreme": H("thorough", module="adaptive", enc=["normalize_scores"], sym="2 finite f32, full range", bound="2 scores, any finite value (max - min may overflow)"),
         "c37_normalize_3_moderate": H("thorough", module="adaptive", enc=["normalize_scores"], sym="3 finite f32 with |x| <= 1e30", bound="3 scores"),
         "c37_absolute_cutoff_4": H(module="adaptive", enc=["find_absolute_cutoff"], sym="4 finite scores, list length 0..4, threshold (any f32 incl. NaN/inf), min_results (any usize)", bound="<= 4 scores"),
-        "c37_dispatch_raw_3": H(module="adaptive", enc=["find_adaptive_cutoff", "find_absolute_cutoff"], sym="3 finite scores, length 0..3, strategy absolute or relative with an arbitrary f32 parameter, min_results",
+        "c37_dispatch_raw_3": H("thorough", module="adaptive", enc=["find_adaptive_cutoff", "find_absolute_cutoff"], sym="3 finite scores, length 0..3, strategy absolute or relative with an arbitrary f32 parameter, min_results",
                                 bound="<= 3 scores, normalize_scores = false"),
+        "c37_dispatch_absolute_2": H("thorough", module="adaptive", enc=["find_adaptive_cutoff", "find_absolute_cutoff"], sym="2 finite scores, length 0..2, arbitrary threshold, min_results", bound="<= 2 scores, absolute strategy through the dispatcher"),
+        "c37_dispatch_relative_2": H("experimental", module="adaptive", enc=["find_adaptive_cutoff", "find_absolute_cutoff"], sym="2 finite scores, length 0..2, arbitrary ratio, min_results", bound="<= 2 scores, relative strategy (one float multiplication)"),
         "c37_dispatch_cliff_2": H("thorough", module="adaptive", enc=["find_adaptive_cutoff", "find_cliff_cutoff"], sym="2 finite scores, arbitrary max_drop_ratio, min_results", bound="<= 2 scores (one float division)"),
         "c37_dispatch_combined_2": H("thorough", module="adaptive", enc=["find_adaptive_cutoff", "find_combined_cutoff"], sym="2 finite scores, arbitrary parameters, min_results", bound="<= 2 scores (one float division)"),
         "c37_elbow_bounds_3": H("thorough", module="adaptive", enc=["find_elbow_cutoff"], sym="3 scores |x| <= 1e6, sensitivity 0..100, min_results 0..2", bound="exactly 3 scores"),
@@ -143,16 +157,19 @@ REG["C37"] = dict(
 )
 
 REG["C35"] = dict(
-    cbmc_args=[],
+    cbmc_args=MEMCMP,
     harnesses={
-        "c35_ascii_two_occurrences": H(module="lex", panic_is_violation=True, enc=["compute_snippet_slices", "sentence_start_before", "sentence_end_after", "prev_char_boundary", "next_char_boundary", "advance_boundary"],
-                                       sym="4 text bytes over {a . space newline}; 0..2 occurrences with arbitrary usize bounds (< 2^63); window 1..2^63; max >= 1",
-                                       bound="4-byte ASCII text, <= 2 occurrences"),
+        "c35_ascii_sentences": H(module="lex", panic_is_violation=True, enc=["compute_snippet_slices", "sentence_start_before", "sentence_end_after", "prev_char_boundary", "next_char_boundary", "advance_boundary"],
+                                       sym="0..2 occurrences with arbitrary usize bounds (< 2^63); window 1..2^63; max >= 1", bound="fixed 5-byte ASCII text 'a. b.', <= 2 occurrences"),
+        "c35_ascii_newline": H(module="lex", panic_is_violation=True, enc=["compute_snippet_slices", "sentence_start_before", "sentence_end_after", "prev_char_boundary", "next_char_boundary", "advance_boundary"],
+                                       sym="0..2 occurrences with arbitrary usize bounds (< 2^63); window 1..2^63; max >= 1", bound="fixed 5-byte ASCII text 'ab\\ncd', <= 2 occurrences"),
+        "c35_ascii_no_terminator": H(module="lex", panic_is_violation=True, enc=["compute_snippet_slices", "sentence_start_before", "sentence_end_after", "prev_char_boundary", "next_char_boundary", "advance_boundary"],
+                                       sym="0..2 occurrences with arbitrary usize bounds (< 2^63); window 1..2^63; max >= 1", bound="fixed 5-byte ASCII text 'abcde', <= 2 occurrences"),
         "c35_multibyte_one_occurrence": H(module="lex", panic_is_violation=True, enc=["compute_snippet_slices"], sym="one occurrence (arbitrary usize bounds < 2^63), window 1..16, max >= 1",
                                           bound="fixed 9-byte text with 1-, 2- and 3-byte characters"),
         "c35_two_snippets_long_text": H("thorough", module="lex", panic_is_violation=True, enc=["compute_snippet_slices"], sym="two occurrences with bounds 0..64, window 1..4, max 1..3", bound="fixed 26-byte text"),
-        "c35_window_zero": H(module="lex", panic_is_violation=True, expect="known", enc=["compute_snippet_slices"], sym="3 text bytes, 0..1 occurrence", bound="window = 0"),
-        "c35_max_zero": H(module="lex", panic_is_violation=True, expect="known", enc=["compute_snippet_slices"], sym="3 text bytes, 1 occurrence", bound="max_snippets = 0"),
+        "c35_window_zero": H(module="lex", panic_is_violation=True, expect="known", enc=["compute_snippet_slices"], sym="0..1 occurrence", bound="text 'a.b', window = 0"),
+        "c35_max_zero": H(module="lex", panic_is_violation=True, expect="known", enc=["compute_snippet_slices"], sym="1 occurrence", bound="text 'a.b', max_snippets = 0"),
         "c35_huge_offsets": H(module="lex", panic_is_violation=True, expect="known", enc=["compute_snippet_slices"], sym="1 occurrence and window over the full usize range", bound="3-byte text"),
     },
     assumptions=["main harnesses assume window >= 1, max >= 1 and offsets < 2^63 — the domain the two callers (search fallback and Tantivy path, which clamp the window to >= 80 and pass in-bounds matches) can produce; the excluded corners are probed separately and recorded as known findings"],
@@ -164,7 +181,9 @@ REG["C30"]["harnesses"].update({
     "c30_footer_decode_arbitrary": H(module="footer", enc=["CommitFooter::decode", "CommitFooter::encode"], sym="57 bytes and the slice length 0..57", bound="every byte string up to 57 bytes"),
     "c15_time_index_roundtrip_3": H(module="time_index", enc=["time_index::append_track", "read_track", "calculate_checksum"], sym="3 entries (timestamp i64, frame id u64), any order, duplicates allowed",
                                     bound="3 entries; writer = 64-byte in-memory Read+Write+Seek object; blake3::Hasher as a ghost accumulator"),
-    "c30_time_index_arbitrary_bytes": H(module="time_index", panic_is_violation=True, enc=["time_index::read_track"], sym="44 track bytes, file length 0..44, declared length 0..64", bound="tracks of <= 2 entries"),
+    "c30_time_index_arbitrary_0": H(module="time_index", panic_is_violation=True, enc=["time_index::read_track"], sym="magic and entry bytes, file length 0..44, declared length (any u64)", bound="declared entry count 0"),
+    "c30_time_index_arbitrary_1": H(module="time_index", panic_is_violation=True, enc=["time_index::read_track"], sym="magic and entry bytes, file length 0..44, declared length (any u64)", bound="declared entry count 1"),
+    "c30_time_index_arbitrary_2": H(module="time_index", panic_is_violation=True, enc=["time_index::read_track"], sym="magic and entry bytes, file length 0..44, declared length (any u64)", bound="declared entry count 2"),
 })
 REG["C30"]["assumptions"] = ["blake3::Hasher::{new,update,finalize} replaced by a ghost accumulator in the time-index harnesses (any deterministic stream hash)"]
 REG["C30"]["cbmc_args"] = MEMCMP
@@ -180,7 +199,7 @@ REG["C15"] = dict(
 )
 
 REG["C11"] = dict(
-    cbmc_args=[],
+    cbmc_args=MEMCMP,
     harnesses={
         "c11_replay_frame_ids_3": H(module="msearch_api", enc=["Memvid::get_replay_frame_ids"], sym="3 frames: timestamp (any i64) and status each; as_of_frame and as_of_ts (any Option)",
                                     bound="3-frame table; soundness and completeness of the time-travel candidate set"),
@@ -190,13 +209,21 @@ REG["C11"] = dict(
 )
 
 REG["C12"] = dict(
-    cbmc_args=[],
+    cbmc_args=MEMCMP,
     harnesses={
         "c12_apply_acl_filter_and_rank": H(module="acl", replay="solver-only", enc=["Memvid::apply_acl_to_search_hits", "validate_enforce_acl_context", "AclFilterStats::record", "Memvid::frame_by_id"],
                                            sym="3 hits naming frames 0..2 or an unknown frame; per-frame allow/deny verdict (arbitrary); mode Enforce/Audit; context present/absent; tenant present/absent/unusable",
                                            bound="3 hits, 3 frames; evaluate_acl_metadata and normalize_acl_context replaced by arbitrary verdicts"),
-        "c12_decision_core": H(module="acl", replay="solver-only", enc=["evaluate_acl_metadata"], sym="parse result over a 2-word vocabulary (tenant, visibility, one role/group/principal or none, or parse failure); caller context likewise",
-                               bound="sets of <= 1 element over {x, y}; parse_acl_metadata replaced by an arbitrary parse result"),
+        "c12_decision_cross_namespace": H("experimental", module="acl", replay="solver-only", enc=["evaluate_acl_metadata"], sym="parse success, frame tenant, caller tenant, visibility",
+                               bound="the frame allows group 'r' and role 'g', the caller has role 'r' and group 'g' (same words in the other namespace): must be denied unless public"),
+        "c12_decision_no_match": H("experimental", module="acl", replay="solver-only", enc=["evaluate_acl_metadata"], sym="parse success, frame tenant, caller tenant, visibility (public/restricted)",
+                               bound="concrete one-element ACL sets (no role/group/principal of the caller is listed); parse_acl_metadata replaced by that parse result"),
+        "c12_decision_role_match": H("experimental", module="acl", replay="solver-only", enc=["evaluate_acl_metadata"], sym="parse success, frame tenant, caller tenant, visibility (public/restricted)",
+                               bound="concrete one-element ACL sets (the caller's role is listed); parse_acl_metadata replaced by that parse result"),
+        "c12_decision_group_match": H("experimental", module="acl", replay="solver-only", enc=["evaluate_acl_metadata"], sym="parse success, frame tenant, caller tenant, visibility (public/restricted)",
+                               bound="concrete one-element ACL sets (the caller's group is listed); parse_acl_metadata replaced by that parse result"),
+        "c12_decision_principal_match": H("experimental", module="acl", replay="solver-only", enc=["evaluate_acl_metadata"], sym="parse success, frame tenant, caller tenant, visibility (public/restricted)",
+                               bound="concrete one-element ACL sets (the caller's principal is listed); parse_acl_metadata replaced by that parse result"),
     },
     assumptions=["metadata parsing (serde_json, case/quote normalisation) is NOT executed: replaced by arbitrary parse results — the normalisation layer is outside this claim"],
     out=["parse_acl_metadata / normalize_scalar / serde_json", "that every retrieval entry point calls the filter (search does; ask/vec paths are feature-gated monoliths)"],
@@ -210,9 +237,9 @@ REG["C15"]["harnesses"].update({
 REG["C15"]["assumptions"] += ["frame_preview and the time-index read are replaced by ghosts in the build_timeline harnesses (the read itself is c15_time_index_roundtrip)"]
 
 REG["C27"] = dict(
-    cbmc_args=[],
+    cbmc_args=MEMCMP,
     harnesses={
-        "c27_temporal_2cards": H(module="memories_track", enc=["MemoriesTrack::add_card", "get_at_time", "get_current", "get_cards", "SlotIndex::insert", "SlotIndex::get", "MemoryCard::effective_timestamp", "is_retracted"],
+        "c27_temporal_2cards": H("experimental", module="memories_track", enc=["MemoriesTrack::add_card", "get_at_time", "get_current", "get_cards", "SlotIndex::insert", "SlotIndex::get", "MemoryCard::effective_timestamp", "is_retracted"],
                                  sym="2 cards of one (entity, slot): event date, document date (Option<i64>), created_at, version relation (4 kinds); query time t (any i64)", bound="2 cards"),
         "c27_temporal_3cards": H("thorough", module="memories_track", enc=["MemoriesTrack::get_at_time", "get_current"], sym="3 cards as above, ties allowed", bound="3 cards"),
     },
@@ -221,7 +248,7 @@ REG["C27"] = dict(
 )
 
 REG["C39"] = dict(
-    cbmc_args=[],
+    cbmc_args=MEMCMP,
     harnesses={
         "c39_filter_small": H(module="sketch_track", enc=["build_term_filter", "term_filter_maybe_contains"], sym="0..3 arbitrary u64 token hashes", bound="16-byte filter, <= 3 tokens"),
         "c39_filter_medium": H(module="sketch_track", enc=["build_term_filter", "term_filter_maybe_contains"], sym="0..3 arbitrary u64 token hashes", bound="32-byte filter"),
@@ -247,7 +274,7 @@ REG["C25"] = dict(
 )
 
 REG["C16"] = dict(
-    cbmc_args=[],
+    cbmc_args=MEMCMP,
     harnesses={
         "c16_parse_cursor": H(module="msearch_helpers", enc=["search::helpers::parse_cursor"], sym="cursor string of 0..3 characters over {digits, space, +, -, x}, present or absent; total_hits any usize", bound="cursor strings up to 3 characters"),
     },
@@ -259,22 +286,186 @@ STAGING = H(module="mutation", replay="solver-only", enc=["Memvid::with_staging_
             sym="outcome of the commit body (Ok/Err), outcome of the rename (Ok/Err), pre-state generation/data_end/footer_offset/dirty, the values the body writes",
             bound="one commit through the copy-and-rename protocol; environment (fsync, staging file, rename, reopen, flock, WAL open) replaced by ghosts that log every call and carry inode identity in the descriptor number")
 REG["C02"] = dict(
-    cbmc_args=[],
+    cbmc_args=MEMCMP,
     harnesses={"c02_staging_protocol": dict(STAGING)},
     assumptions=["CommitStaging::{prepare,copy_from,clone_file,commit,discard}, EmbeddedWal::open, OpenOptions::open, File::sync_all/try_clone, FileLock::lock_with_retry and OwnedFd::drop are ghosts; only the rename and the commit body can fail (prepare/copy/reopen/fsync failures are outside this harness)",
                  "POSIX: rename replaces the inode the path names; completed syscalls persist (process-crash model)"],
     out=["crash points between the individual writes of the commit body (needs whole-file decode by a later open)", "grow_wal_region / recover_wal in-place write windows", "atomic-write-file internals"],
 )
 REG["C17"] = dict(
-    cbmc_args=[],
+    cbmc_args=MEMCMP,
     harnesses={"c02_staging_protocol": dict(STAGING)},
     assumptions=["POSIX flock belongs to the open file description / inode; rename replaces the inode at the path. Under these two environment contracts 'at most one writer' reduces to the invariant checked here: after every commit (successful or rolled back) the handle's exclusive lock is on the inode the path currently names",
                  "FileLock::lock_with_retry (the fs2 flock call) replaced by a ghost that records which inode was locked"],
     out=["the kernel's lock implementation, NFS, two real processes", "lock acquisition retry loop"],
 )
 REG["C19"] = dict(
-    cbmc_args=[],
+    cbmc_args=MEMCMP,
     harnesses={"c02_staging_protocol": dict(STAGING)},
     assumptions=["as C02: the staging (temporary) file is resolved exactly once — renamed into place or discarded — on every modelled path"],
     out=["ensure_single_file sidecar detection (Path/format machinery)", "temp names chosen inside atomic-write-file/tempfile", "directory listings after real calls"],
 )
+
+FOOTER = H(module="mutation", replay="solver-only", enc=["Memvid::rewrite_toc_footer", "CommitFooter::encode", "CommitFooter::decode"], sym="footer_offset 16..200, WAL size 1..300, previous file length 0..400, generation, 5 TOC bytes",
+           bound="in-memory file of <= 512 bytes; TOC serialisation replaced by an arbitrary 5-byte blob")
+RECOVER1 = H(module="mutation", replay="solver-only", enc=["Memvid::recover_wal"], sym="checkpoint sequence, pending-insert counter", bound="1 pending record, 1 committed frame; two consecutive recoveries")
+RECOVER_ASSUME = ["EmbeddedWal::records_after / record_checkpoint, Memvid::apply_records / rebuild_indexes, persist_header and File::sync_all are ghosts; rebuild_indexes persists the TOC and then the header (as the real one does in its last three statements); the durable (TOC frames, header wal_sequence) pair is tracked after every persisting call",
+                  "a header write is atomic (single 4 KiB write)"]
+NO_APPLY = "Memvid::apply_records itself (the body that turns a record into a frame) could NOT be executed symbolically: even with one concrete tombstone record CBMC explores the insert arm with opaque state (2.9-4.2 M symex steps) and runs out of memory (> 40 GB); see DESIGN.md section 8. Replay is therefore covered only as wiring (every pending record handed to apply_records exactly once, checkpoint only after it succeeded)."
+REG["C01"] = dict(
+    cbmc_args=MEMCMP,
+    harnesses={"c05_step_append_20": dict(REG["C05"]["harnesses"]["c05_step_append_20"]),
+               "c05_step_scan_old_and_pending": dict(REG["C05"]["harnesses"]["c05_step_scan_old_and_pending"]),
+               "c05_scan_three_records": dict(REG["C05"]["harnesses"]["c05_scan_three_records"]),
+               "c04_recover_uninterrupted_1": dict(RECOVER1)},
+    assumptions=IO_ASSUMPTIONS + RECOVER_ASSUME + ["C01 is claimed only as: (a) the embedded log hands every acknowledged record to replay, exactly once and in order (C05 inductive steps + scan fidelity), (d) recovery applies every pending record exactly once and checkpoints only afterwards. " + NO_APPLY],
+    out=["apply_records body (record -> frame), put_internal (payload preparation, chunking, extraction), Tantivy, zstd", "whole-API histories"],
+)
+REG["C06"] = dict(
+    cbmc_args=MEMCMP,
+    harnesses={"c06_next_frame_id": H(module="lifecycle", enc=["Memvid::next_frame_id", "frame_count"], sym="0..3 committed frames, pending insert counter (any u64)", bound="<= 3 frames"),
+               "c04_recover_uninterrupted_1": dict(RECOVER1)},
+    assumptions=RECOVER_ASSUME + ["claimed for the id predictor only: next_frame_id = committed frames + acknowledged-uncommitted inserts, and the pending counter is reset exactly when the records were applied. " + NO_APPLY],
+    out=["that apply_records assigns id == position (not executable)", "chunked documents, vacuum, doctor"],
+)
+REG["C08"] = dict(
+    cbmc_args=MEMCMP,
+    harnesses={"c11_replay_frame_ids_3": dict(REG["C11"]["harnesses"]["c11_replay_frame_ids_3"]),
+               "c14_remove_entries_embedding_for": dict(REG["C14"]["harnesses"]["c14_remove_entries_embedding_for"])},
+    assumptions=["claimed for two read paths only: the time-travel/candidate filter returns only Active frames, and a frame removed from the uncompressed vector index is no longer findable. " + NO_APPLY],
+    out=["mark_frame_deleted / mark_frame_superseded as driven by replay", "Tantivy delete, lexical/ask search paths", "update_frame option inheritance", "timeline filtering is C15"],
+)
+REG["C24"] = dict(
+    cbmc_args=MEMCMP,
+    harnesses={"c24_capacity_limit": H(module="lifecycle", enc=["Memvid::capacity_limit", "tier", "get_capacity"], sym="ticket capacity (any u64), WAL size (any)", bound="all values")},
+    assumptions=["only the limit computation is decided; the admission check itself is inline in put_internal (not executable) — see DESIGN.md finding 5"],
+    out=["the capacity check in put_internal", "CapacityExceeded leaving the memory unchanged"],
+)
+REG["C02"]["harnesses"]["c02_rewrite_toc_footer"] = dict(FOOTER)
+REG["C02"]["cbmc_args"] = MEMCMP + FIELDS
+REG["C03"] = dict(
+    cbmc_args=MEMCMP,
+    harnesses={"c05_step_append_1": dict(REG["C05"]["harnesses"]["c05_step_append_1"]), "c02_staging_protocol": dict(STAGING), "c02_rewrite_toc_footer": dict(FOOTER)},
+    assumptions=IO_ASSUMPTIONS + ["C03 is claimed as fsync-ordering obligations inside memvid's own code: an acknowledged append is followed by an fsync (unless batch mode), the staging copy is taken from a synced file and synced before the rename, the TOC/footer rewrite ends with an fsync",
+                                  "fsync makes everything written so far durable (kernel contract)"],
+    out=["torn writes below write granularity, rename/directory durability (inside atomic-write-file)", "the durable-image obligation (reopen of a crash image)"],
+)
+REG["C20"] = dict(
+    cbmc_args=MEMCMP,
+    harnesses={"c02_rewrite_toc_footer": dict(FOOTER), "c30_footer_decode_arbitrary": dict(REG["C30"]["harnesses"]["c30_footer_decode_arbitrary"]),
+               "c30_time_index_arbitrary_2": dict(REG["C30"]["harnesses"]["c30_time_index_arbitrary_2"])},
+    assumptions=IO_ASSUMPTIONS + ["kernels only: the footer hash written is the hash of the TOC bytes written; decoders reject inconsistent magic/length"],
+    out=["verify(deep) coverage of payload bytes", "open()'s use of the checksums over a whole file", "index segment bytes"],
+)
+
+RECOVER_ASSUME = ["EmbeddedWal::records_after / record_checkpoint, Memvid::apply_records / rebuild_indexes, persist_header and File::sync_all are ghosts; rebuild_indexes persists the TOC and then the header (as the real one does in its last three statements); the durable (TOC frames, header wal_sequence) pair is tracked after every persisting call",
+                  "a header write is atomic (single 4 KiB write)"]
+REG["C04"] = dict(
+    cbmc_args=MEMCMP,
+    harnesses={
+        "c04_recover_uninterrupted_2": H("thorough", module="mutation", replay="solver-only", enc=["Memvid::recover_wal"], sym="checkpoint sequence, pending-insert counter", bound="2 pending record(s), 1 committed frame; two consecutive recoveries"),
+        "c04_recover_uninterrupted_1": H(module="mutation", replay="solver-only", enc=["Memvid::recover_wal"], sym="checkpoint sequence, pending-insert counter", bound="1 pending record(s), 1 committed frame; two consecutive recoveries"),
+        "c04_recover_nothing_pending": H(module="mutation", replay="solver-only", enc=["Memvid::recover_wal"], sym="checkpoint sequence, pending-insert counter", bound="0 pending record(s), 1 committed frame; two consecutive recoveries"),
+        "c04_recover_crash_points": H(module="mutation", replay="solver-only", expect="known", enc=["Memvid::recover_wal"], sym="checkpoint sequence; crash point = any persisting call", bound="1 pending record"),
+        "c04_recover_step_failure": H(module="mutation", replay="solver-only", enc=["Memvid::recover_wal"], sym="which step fails (apply / index rebuild), checkpoint sequence", bound="1 pending record"),
+        "c05_step_open_old_and_pending": dict(REG["C05"]["harnesses"]["c05_step_open_old_and_pending"]),
+    },
+    assumptions=RECOVER_ASSUME,
+    out=["index rebuild contents", "footer-scan based recovery after a torn TOC (C31)", "nested crashes beyond one level: the durable-pair invariant is the inductive argument"],
+)
+
+REG["C22"] = dict(
+    cbmc_args=MEMCMP,
+    harnesses={
+        "c30_header_decode_arbitrary": dict(REG["C30"]["harnesses"]["c30_header_decode_arbitrary"], panic_is_violation=True),
+        "c30_footer_decode_arbitrary": dict(REG["C30"]["harnesses"]["c30_footer_decode_arbitrary"], panic_is_violation=True),
+        "c30_time_index_arbitrary_2": dict(REG["C30"]["harnesses"]["c30_time_index_arbitrary_2"]),
+        "c22_time_index_any_length": H(module="time_index", panic_is_violation=True, enc=["time_index::read_track"], sym="declared entry count and declared length: any u64", bound="12-byte file (header only)"),
+        "c22_wal_scan_arbitrary_bytes": H(module="wal", panic_is_violation=True, enc=["EmbeddedWal::scan_records"], sym="all 100 bytes of the log region", bound="100-byte region (room for two minimal records)"),
+        "c22_verify_toc_prefix": H(module="lifecycle", panic_is_violation=True, enc=["lifecycle::verify_toc_prefix"], sym="32 prefix bytes, length 0..32", bound="TOC prefix of <= 32 bytes"),
+        "c22_frame_bounds_validators": H(module="lifecycle", panic_is_violation=True, enc=["lifecycle::ensure_non_overlapping_frames", "compute_data_end", "compute_payload_region_end"],
+                                         sym="2 frames: payload offset/length (any u64), status; file length, header WAL geometry and footer offset (any u64)", bound="2 frames"),
+    },
+    assumptions=IO_ASSUMPTIONS + ["claimed for the decoders and validators that open()/verify() run on file-supplied numbers BEFORE and AFTER the TOC is decoded; panics, overflows and index errors inside them count as violations; termination is the unwinding assertion"],
+    out=["Toc::decode on arbitrary bytes (bincode of the full struct)", "doctor, Tantivy, read APIs over a whole handle", "hangs inside dependencies"],
+)
+
+WIRING_ASSUME = ["Memvid::apply_records / rebuild_indexes / rewrite_toc_footer, EmbeddedWal::record_checkpoint, persist_header and File::sync_all are ghosts that log their call order; apply_records appends one frame per record or fails as the harness decides"]
+REG["C01"]["harnesses"]["c01_commit_wiring"] = H(module="mutation", replay="solver-only", enc=["Memvid::commit_from_records"], sym="checkpoint sequence, generation, pending-insert counter, whether replay fails", bound="1 pending record")
+REG["C01"]["assumptions"] += WIRING_ASSUME
+REG["C03"]["harnesses"]["c01_commit_wiring"] = dict(REG["C01"]["harnesses"]["c01_commit_wiring"])
+REG["C03"]["harnesses"]["c40_batch_mode_flush"] = H(module="mutation", replay="solver-only", enc=["Memvid::begin_batch", "end_batch"], sym="skip_sync option", bound="one begin/end pair; WAL flush and set_skip_sync ghosted")
+REG["C40"] = dict(
+    cbmc_args=MEMCMP,
+    harnesses={
+        "c40_commit_skip_indexes_wiring": H(module="mutation", replay="solver-only", enc=["Memvid::commit_skip_indexes_inner"], sym="as c01_commit_wiring", bound="1 pending record"),
+        "c01_commit_wiring": dict(REG["C01"]["harnesses"]["c01_commit_wiring"]),
+        "c40_batch_mode_flush": dict(REG["C03"]["harnesses"]["c40_batch_mode_flush"]),
+    },
+    assumptions=WIRING_ASSUME + ["C40 is claimed at the wiring level only: both commit paths hand the same records to the same apply_records and checkpoint afterwards; the index-skipping path clears every index manifest and puts the footer right after the payloads; batch mode restores per-append fsync only after a flush"],
+    out=["equality of search/vector/timeline results after finalize_indexes (Tantivy, index builders)", "ensure_wal_capacity data shifting", "compression level"],
+)
+
+REG["C34"] = dict(
+    cbmc_args=MEMCMP,
+    harnesses={
+        "c34_partition_6_by_2": H(module="chunks", panic_is_violation=True, enc=["chunks::build_chunk_manifest", "choose_chunk_boundary", "slice_text_range"], sym="6 text characters over {a . space newline}", bound="6-character ASCII text, chunk size 2"),
+        "c34_partition_7_by_3": H(module="chunks", panic_is_violation=True, enc=["chunks::build_chunk_manifest", "choose_chunk_boundary", "slice_text_range"], sym="7 text characters over {a . space newline}", bound="7-character ASCII text, chunk size 3"),
+        "c34_choose_boundary_small_slack": H(module="chunks", panic_is_violation=True, enc=["chunks::choose_chunk_boundary"], sym="7 characters, start < target <= 7, slack 0..3", bound="7 characters; slack <= 3 (production: max(chunk/5, 32))"),
+    },
+    assumptions=["chunk size is a parameter of build_chunk_manifest: the harness uses 2 and 3 instead of the production 1200 so that texts of 6-7 characters are split"],
+    out=["the 2400-character production threshold and normalize_text (NFKC) in plan_text_chunks", "structure-aware chunking of tables/code (detector + StructuralChunker)", "multi-byte text"],
+)
+
+REG["C41"] = dict(
+    cbmc_args=MEMCMP,
+    harnesses={
+        "c41_worker_loop_interleavings": H(module="enrichment_worker", replay="solver-only", enc=["enrichment_worker::run_worker_loop", "EnrichmentWorkerHandle::{new,stop,should_stop,set_running,inc_*}"],
+                                           sym="initial queue (3 frames), checkpoint interval 1..3, which tasks fail, and at each of <= 5 lock boundaries an arbitrary foreground action (enqueue / dequeue a frame / stop / nothing)",
+                                           bound="3 frames, <= 5 foreground turns (<= 2 worker iterations)"),
+    },
+    assumptions=["threads are not modelled: the std Mutex gives mutual exclusion, so an interleaving is a foreground action between two worker closures; std::thread::sleep is a no-op",
+                 "the worker's four closures are harness models of next_enrichment_task / process / complete / commit (the real process_enrichment_task drives embedding and Tantivy)"],
+    out=["real threads and schedulers", "process_enrichment_task body", "that every queued frame ends Enriched (a failing task is completed without being enriched — by design of the loop)"],
+)
+
+# ---------------------------------------------------------------------------
+# Properties not claimed, with the reason (goes to MANIFEST.not_applicable).
+NOT_APPLICABLE.update({
+    "C07": "Content fidelity needs the replay body (Memvid::apply_records writes the payload and records offset/length/checksum) and the read path (frame_canonical_bytes over Frame clones, zstd FFI). apply_records could not be executed symbolically: even one concrete record drives CBMC through 2.9-4.2 M symex steps and out of memory (> 40 GB) - measured, see DESIGN.md 8.4; zstd is FFI. No kernel that is left carries the property.",
+    "C09": "Lexical recall is decided by Tantivy's index and BM25 collector and by SimHash over blake3 token hashes of whole documents; neither compiles to a goto-program of tractable size, and a counterexample found with the hash stubbed cannot be replayed (the solver cannot invert blake3). The sub-claim 'the term filter has no false negatives' is C39.",
+    "C10": "Hit validity is decided inside try_tantivy_search (Tantivy scoring, doc_limit) and the lex-gated search monolith; the non-Tantivy kernels that carry parts of it are claimed elsewhere (snippet ranges C35, ACL re-ranking C12, cursor C16). LexIndex::compute_matches works on HashMap/HashSet<String>-backed postings, which CBMC could not handle here (every HashSet<String> harness timed out: C12 decision core, C27).",
+    "C18": None,  # filled below when the read-only harnesses are registered
+    "C21": "Doctor is ~1700 lines of path-based orchestration (open/verify/rebuild/vacuum through real files, Tantivy, mmap); no kernel of it carries the property, which is defined over crash-left whole files.",
+    "C23": "Byte-identical output is a whole-pipeline property (zstd, Tantivy segment ids, wall-clock defaults); per-kernel determinism is trivially true of pure functions and says nothing about the file.",
+    "C26": "The faulty use of the WAL sequence number as frame id (triplet cards, enrichment queue, instant index) is inside put_internal, which cannot be executed symbolically (zstd, extractors, regex, serde_json); the kernels around it use whatever id they are given. Recorded as an observation in DESIGN.md (section 2.7 item 6), not as a checked finding.",
+    "C27": "MemoriesTrack keeps its slot index in a HashMap<String, Vec<id>>; the harness (c27_temporal_2cards, kept as experimental) did not finish in 10 minutes even for 2 cards of one slot - hashbrown probing and SipHash over Strings are intractable for CBMC in this setup.",
+    "C28": "'Same answers before/after reopen and after doctor' is decided by Tantivy snapshot/restore and index loading from real files; the two encodable round trips are already C13/C14 (vector index operations) and C15 (time index).",
+    "C29": "The capsule stream framing sits on AES-GCM/Argon2 (aes-gcm, argon2 crates) behind the `encryption` feature; with the AEAD stubbed to an ideal oracle the remaining framing loop reads/writes through File handles with 1 MiB chunk buffers (symbolic-size allocations). Not attempted within the time available; no claim.",
+    "C32": "Parser totality/semantics: probed in the design phase - with regex stubbed the parser compiles, but symex of TextTerm::from_word (trim/contains/to_ascii_lowercase over core's memchr loops) did not finish in 7 minutes for 4 tokens; tokens are heap Strings inside Vec<Token>/Box<Expr> (symbolic-shape containers, see DESIGN.md 8.2). The recursion-depth defect (parse_factor/parse_primary recurse once per NOT / '(' token: stack exhaustion on pathological input) is recorded as an observation, not a checked finding.",
+    "C33": "NFKC normalisation and grapheme segmentation are table-driven Unicode algorithms (tens of KB of tables, data-dependent loops); CBMC cannot decide them on symbolic text, and an ASCII-only restriction removes exactly the inputs the property is about.",
+    "C36": "mask_pii / contains_pii are sequential regex replacements; regex-automata does not survive Kani code generation (ICE) and a stubbed regex leaves nothing to check.",
+    "C42": "vacuum() is commit() + a table-rewrite loop over Vec<Frame> (cloned frames, payload reads/writes through the handle) + rebuild_indexes; the loop is not separable from the two ends, and Memvid-level code that clones or drops Frame values is exactly what blew up for apply_records (DESIGN.md 8.4). Not attempted beyond reading; no claim.",
+})
+NOT_APPLICABLE = {k: v for k, v in NOT_APPLICABLE.items() if v}
+
+del REG["C27"]  # not claimed (see NOT_APPLICABLE); the harness stays in harness/memories_track.rs
+
+REG["C18"] = dict(
+    cbmc_args=MEMCMP,
+    harnesses={
+        "c18_wal_read_only_old_and_pending": H(module="wal", replay="solver-only", enc=["EmbeddedWal::open_read_only", "pending_records", "append_entry", "record_checkpoint", "should_checkpoint"],
+                                               sym="any invariant log state with checkpointed and pending records (region 48 B - 64 MiB)", bound="one read-only open followed by a scan, an append, a checkpoint; scan ghosted; data-less disk counts every write"),
+        "c18_wal_read_only_empty": H(module="wal", replay="solver-only", enc=["EmbeddedWal::open_read_only", "pending_records", "append_entry", "record_checkpoint"], sym="any empty log", bound="as above, empty log"),
+        "c18_header_read_without_repair": H(module="header", enc=["HeaderCodec::read_without_repair", "HeaderCodec::read"], sym="4 bytes anywhere in the legacy-lock region of an otherwise valid header", bound="4096-byte header image"),
+    },
+    assumptions=["claimed for the two write-capable components the read-only open goes through: the embedded log handle (no write for any state; mutators refused) and the header reader (the read-only path uses a reader without Write capability and decodes the same header as the repairing reader)"],
+    out=["read APIs above the log (search/timeline/verify over a whole handle)", "load_tail_snapshot (mmap + footer scan + TOC decode)", "Tantivy temp directories"],
+)
+
+
+# harnesses that use the in-memory disk WITH data need per-cell tracking of the 512-byte disk
+for _p in REG.values():
+    for _n, _h in _p["harnesses"].items():
+        if _n.startswith(("c05_record_layout", "c05_scan_", "c22_wal_scan", "c02_rewrite_toc_footer")):
+            _h["cbmc"] = MEMCMP + FIELDS
